@@ -43,6 +43,7 @@ func (g *Graph) Dijkstra(src Vertex) (distTo map[interface{}]int, edgeTo map[int
 	// while Q IS NOT EMPTY
 	visited := map[interface{}]struct{}{}
 	for queue.Len() > 0 {
+		verifStep()
 		// U <- Extract MIN from Q
 		u := heap.Pop(&queue).(*distQueueItem)
 		visited[u.v] = struct{}{}
